@@ -1,6 +1,6 @@
 (* Wire-level dispatch: function id -> decoder -> model function -> encoder.
    The harness reads the `fn_*` table below (single source of the ids).  Glue only. *)
-From SG Require Import Base.Prelude Base.Val Base.NumpyPrims Model.Pairs Model.Groups Model.Estimators Model.Sparse Model.Binning Model.Kriging Model.Jackknife Model.SpaceTime Model.SumModels.
+From SG Require Import Base.Prelude Base.Val Base.NumpyPrims Model.Pairs Model.Groups Model.Estimators Model.Sparse Model.Binning Model.Kriging Model.Jackknife Model.SpaceTime Model.SumModels Model.VarioSM.
 
 Definition fn_pairs : Z := 1.
 Definition fn_groups : Z := 2.
@@ -37,6 +37,107 @@ Definition fn_fit_samples : Z := 32.
 Definition fn_slice_bounds : Z := 33.
 Definition fn_split_args : Z := 34.
 Definition fn_masked_groups : Z := 35.
+Definition fn_vario_run : Z := 36.
+
+(* ---- wire encoding of the C06 state machine ---- *)
+Definition getBinf (v : val) : option binf :=
+  match v with
+  | VL [VZ 0%Z] => Some BEven | VL [VZ 1%Z] => Some BUniform | VL [VZ 2%Z] => Some BKmeans | VL [VZ 3%Z] => Some BWard
+  | VL [VZ 4%Z; r] => do k <- getN r; Some (BAuto k)
+  | VL [VZ 5%Z; e] => do k <- getN e; Some (BCustom k)
+  | _ => None end.
+Definition getMl (v : val) : option mlform :=
+  match v with
+  | VL [VZ 0%Z] => Some MLNone | VL [VZ 1%Z] => Some MLMedian | VL [VZ 2%Z] => Some MLMean
+  | VL [VZ 3%Z; x] => do k <- getN x; Some (MLRel k)
+  | VL [VZ 4%Z; x] => do k <- getN x; Some (MLAbs k)
+  | VL [VZ 5%Z; x] => do k <- getN x; Some (MLOfEdges k)
+  | _ => None end.
+Definition getNl (v : val) : option nlags :=
+  match v with
+  | VL [VZ 0%Z; x] => do k <- getN x; Some (NLGiven k)
+  | VL [VZ 1%Z] => Some NLDerived
+  | VL [VZ 2%Z; x] => do k <- getN x; Some (NLOfEdges k)
+  | _ => None end.
+Definition ofBinf (b : binf) : val :=
+  match b with BEven => VL [VZ 0] | BUniform => VL [VZ 1] | BKmeans => VL [VZ 2] | BWard => VL [VZ 3]
+             | BAuto k => VL [VZ 4; ofN k] | BCustom k => VL [VZ 5; ofN k] end.
+Definition ofMl (m : mlform) : val :=
+  match m with MLNone => VL [VZ 0] | MLMedian => VL [VZ 1] | MLMean => VL [VZ 2]
+             | MLRel k => VL [VZ 3; ofN k] | MLAbs k => VL [VZ 4; ofN k] | MLOfEdges k => VL [VZ 5; ofN k] end.
+Definition ofNl (n : nlags) : val :=
+  match n with NLGiven k => VL [VZ 0; ofN k] | NLDerived => VL [VZ 1] | NLOfEdges k => VL [VZ 2; ofN k] end.
+
+Definition getSettings (v : val) : option settings :=
+  match v with
+  | VL [d; va; nl; ml; bf; e; m; nu; fm; sg; az; tl; bw; dm] =>
+      do d <- getN d; do va <- getN va; do nl <- getNl nl; do ml <- getMl ml; do bf <- getBinf bf; do e <- getN e; do m <- getN m;
+      do nu <- getB nu; do fm <- getN fm; do sg <- getN sg; do az <- getN az; do tl <- getN tl; do bw <- getN bw; do dm <- getN dm;
+      Some (mkS d va nl ml bf e m nu fm sg az tl bw dm)
+  | _ => None end.
+Definition ofSettings (s : settings) : val :=
+  VL [ofN (s_dist s); ofN (s_vals s); ofNl (s_nlags s); ofMl (s_maxlag s); ofBinf (s_binf s); ofN (s_est s); ofN (s_model s); VB (s_nugget s);
+      ofN (s_fitm s); ofN (s_sigma s); ofN (s_az s); ofN (s_tol s); ofN (s_bw s); ofN (s_dmodel s)].
+
+Definition getOp (v : val) : option op :=
+  match v with
+  | VL [VZ 0%Z; x] => do k <- getN x; Some (SetNLags k)
+  | VL [VZ 1%Z; x] => do m <- getMl x; Some (SetMaxlag m)
+  | VL [VZ 2%Z; x] => do b <- getBinf x; Some (SetBinFunc b)
+  | VL [VZ 3%Z; x] => do k <- getN x; Some (SetBins k)
+  | VL [VZ 4%Z; x] => do k <- getN x; Some (SetEstimator k)
+  | VL [VZ 5%Z; x] => do k <- getN x; Some (SetModel k)
+  | VL [VZ 6%Z; x] => do b <- getB x; Some (SetUseNugget b)
+  | VL [VZ 7%Z; x] => do k <- getN x; Some (SetFitMethod k)
+  | VL [VZ 8%Z; x] => do k <- getN x; Some (SetFitSigma k)
+  | VL [VZ 9%Z; x] => do k <- getN x; Some (SetDist k)
+  | VL [VZ 10%Z; x] => do k <- getN x; Some (SetValues k)
+  | VL [VZ 11%Z; x] => do k <- getN x; Some (SetAzimuth k)
+  | VL [VZ 12%Z; x] => do k <- getN x; Some (SetTolerance k)
+  | VL [VZ 13%Z; x] => do k <- getN x; Some (SetBandwidth k)
+  | VL [VZ 14%Z; x] => do k <- getN x; Some (SetDirModel k)
+  | VL [VZ 20%Z] => Some ReadBins | VL [VZ 21%Z] => Some ReadNLags | VL [VZ 22%Z] => Some ReadCount
+  | VL [VZ 23%Z] => Some ReadExperimental | VL [VZ 24%Z] => Some ReadParameters
+  | _ => None end.
+
+Definition obs_eqb (a b : obs) : bool := val_eqb
+  ((fix enc (o : obs) : val :=
+      let dirv d := match d with (a, b, c, e) => VL [ofN a; ofN b; ofN c; ofN e] end in
+      let bk k := match k with (d, nl, ml, bf, dr) => VL [ofN d; ofNl nl; ofMl ml; ofBinf bf; dirv dr] end in
+      let gk k := match k with (b, d, dr) => VL [bk b; ofN d; dirv dr] end in
+      match o with
+      | OBins k => VL [VZ 0; bk k]
+      | ONLags nl k => VL [VZ 1; ofNl nl; match k with Some x => bk x | None => VNone end]
+      | OCount k => VL [VZ 2; gk k]
+      | OExp k d e => VL [VZ 3; gk k; VL [ofN (fst d); ofN (snd d)]; ofN e]
+      | OCof k => match k with (g, v, e, (m, nu, fm, sg)) => VL [VZ 4; gk g; ofN v; ofN e; ofN m; VB nu; ofN fm; ofN sg] end
+      | ONone => VNone
+      end) a)
+  ((fix enc (o : obs) : val :=
+      let dirv d := match d with (a, b, c, e) => VL [ofN a; ofN b; ofN c; ofN e] end in
+      let bk k := match k with (d, nl, ml, bf, dr) => VL [ofN d; ofNl nl; ofMl ml; ofBinf bf; dirv dr] end in
+      let gk k := match k with (b, d, dr) => VL [bk b; ofN d; dirv dr] end in
+      match o with
+      | OBins k => VL [VZ 0; bk k]
+      | ONLags nl k => VL [VZ 1; ofNl nl; match k with Some x => bk x | None => VNone end]
+      | OCount k => VL [VZ 2; gk k]
+      | OExp k d e => VL [VZ 3; gk k; VL [ofN (fst d); ofN (snd d)]; ofN e]
+      | OCof k => match k with (g, v, e, (m, nu, fm, sg)) => VL [VZ 4; gk g; ofN v; ofN e; ofN m; VB nu; ofN fm; ofN sg] end
+      | ONone => VNone
+      end) b).
+
+(* per operation: settings after it, whether it was admissible/safe, and for a read whether the value
+   returned equals that of a fresh instance with the current settings (the model's validity bit) *)
+Fixpoint vario_trace (st : settings * caches) (ops : list op) : list val :=
+  match ops with
+  | [] => []
+  | o :: r =>
+      let adm := admissible_op (fst st) o in
+      let safe := safe_op (fst st) (snd st) o in
+      let res := step st o in
+      let valid := if is_read o then obs_eqb (snd res) (fresh (fst st) o) else true in
+      VL [ofSettings (fst (fst res)); VB adm; VB safe; VB valid] :: vario_trace (fst res) r
+  end.
 
 (* one target result on the wire: [z sigma] or a failure code z1 (no points) z2 (singular) z3 (ill) *)
 Definition getResult (v : val) : option target_result :=
@@ -116,6 +217,7 @@ Definition run_fn (f : Z) (a : list val) : option val :=
   | 34%Z => do sz <- getList getN (arg a 0); do x <- getList getQ (arg a 1); Some (ofList (ofList ofQ) (split_args sz x))
   | 35%Z => do e <- getList getQ (arg a 0); do D <- getList getQ (arg a 1); do m <- getList getB (arg a 2);
             Some (ofList (ofOpt ofN) (masked_groups e D m))
+  | 36%Z => do s <- getSettings (arg a 0); do ops <- getList getOp (arg a 1); Some (VL (vario_trace (s, empty_caches) ops))
   | _ => None
   end.
 
